@@ -31,6 +31,7 @@ def run(tier):
         chk.clause('C10.D3', 'R3/R7 oracle of sp_preorder')
         chk.clause('C10.D1', 'R10 orderings never read matrix values')
         r11_kinds.run(chk, 'C10.kinds', prog, cfgname, floor=1900)
+        extent.elem_size_rule(chk, 'C10.elem', prog, {'SRC/get_perm_c.c', 'SRC/sp_coletree.c', 'SRC/sp_preorder.c', 'SRC/colamd.c', 'SRC/mmd.c'}, cfgname, floor=10)
         n1 = ordering.get_perm_c_oracle(chk, 'C10.D4', prog, eff, cfgname)
         ordering.colamd_rules(chk, 'C10.D4', prog, cfgname)
         n2 = preorder.run(chk, 'C10.D3', prog, eff, cfgname)
